@@ -497,6 +497,70 @@ func c19R2(p *core.Program, r *core.Report) {
 		}
 	}
 	r.OK(rule, nil, "no package-level writes in pkg/camelcase function bodies", token.NoPos, itoa(int64(n))+" function bodies scanned")
+	// ... and no state that outlives a call in the closures the converters are: a function literal that is returned (or
+	// stored in a package-level variable) must not write - by assignment or by a mutating method of a sync type - a
+	// variable of the function that made it: that variable lives as long as the converter
+	nlit := 0
+	for _, f := range p.Funcs() {
+		if core.RelPkg(f.Pkg.PkgPath) != "pkg/camelcase" || f.Lit == nil || f.Parent == nil {
+			continue
+		}
+		nlit++
+		info := f.Info()
+		captured := func(e ast.Expr) *types.Var {
+			for {
+				switch x := ast.Unparen(e).(type) {
+				case *ast.SelectorExpr:
+					e = x.X
+					continue
+				case *ast.IndexExpr:
+					e = x.X
+					continue
+				case *ast.StarExpr:
+					e = x.X
+					continue
+				case *ast.UnaryExpr:
+					e = x.X
+					continue
+				case *ast.Ident:
+					v, _ := info.ObjectOf(x).(*types.Var)
+					if v == nil || v.IsField() || core.DeclaredIn(info, f.Body, v) || isParamOf(f, v) {
+						return nil
+					}
+					if v.Pkg() != nil && v.Parent() == v.Pkg().Scope() {
+						return nil // package level: reported above
+					}
+					return v
+				}
+				return nil
+			}
+		}
+		ast.Inspect(f.Body, func(m ast.Node) bool {
+			switch x := m.(type) {
+			case *ast.AssignStmt:
+				if x.Tok == token.DEFINE {
+					return true
+				}
+				for _, l := range x.Lhs {
+					if v := captured(l); v != nil {
+						r.Bad(rule, f, "a converter writes state that outlives the call: "+core.ExprStr(x), x.Pos(), "`"+v.Name()+"` belongs to the function that made the converter and lives as long as it: what a call returns depends on the calls before it")
+					}
+				}
+			case *ast.IncDecStmt:
+				if v := captured(x.X); v != nil {
+					r.Bad(rule, f, "a converter writes state that outlives the call: "+core.ExprStr(x), x.Pos(), "`"+v.Name()+"` lives as long as the converter")
+				}
+			case *ast.CallExpr:
+				if mutatingSyncMethods[core.CalleeName(info, x)] {
+					if v := captured(recvOf(x)); v != nil {
+						r.Bad(rule, f, "a converter fills a memo that outlives the call: "+core.ExprStr(x.Fun), x.Pos(), "`"+v.Name()+"` is shared by all calls of the converter: an entry made by one call answers for the next (a word converted first at position 0 keeps that form at every other position)")
+					}
+				}
+			}
+			return true
+		})
+	}
+	r.OK(rule, nil, "no converter closure writes a variable of its maker", token.NoPos, itoa(int64(nlit))+" function literals scanned")
 	// the stateful Caser must be built per call
 	pkg := p.Pkg("pkg/camelcase")
 	found := 0
